@@ -11,6 +11,9 @@ import (
 func main() {
 	e := core.NewEng("d")
 	defer e.Close()
+	if os.Getenv("MYSQLDB") != "" {
+		e.E.Analyzer.Catalog.MySQLDb.AddRootAccount()
+	}
 	s := e.NewSess()
 	sc := bufio.NewScanner(os.Stdin)
 	sc.Buffer(make([]byte, 1<<20), 1<<20)
